@@ -310,7 +310,7 @@ static void chk(const pc_t *pc, const char *fam)
         res.violation = 1;
         res.nontrivial = 1;
         res.transitions = 1;
-        snprintf(res.key, sizeof(res.key), "%s|len=%d|%s", alg_label(pc), pc->n, fam);
+        snprintf(res.key, sizeof(res.key), "%s|%s", alg_label(pc), fam);
         if (r == 3)
         {
             snprintf(res.key, sizeof(res.key), "ubsan|%s|%s", ub_where, ub_kind);
